@@ -191,6 +191,10 @@ def log_append(log, cb, args):
     return z3.If(zn(cb), log, Log.snoc(log, mk_event(ext.id, args)))
 
 
+TD_GH = ["dl", "raw", "D", "teardowns", "live_ping_threads", "closed_handles", "auto_close", "wire", "tx_calls", "draws", "rpos", "rx_calls",
+         "fstart", "lastf", "clock"]
+
+
 def install(e):
     install_callbacks(e)
     install_small(e)
@@ -567,8 +571,6 @@ def install_teardown(e):
     def td_after_flag(c, fr, r):
         pass
 
-    TD_GH = ["dl", "raw", "D", "teardowns", "live_ping_threads", "closed_handles", "auto_close", "wire", "tx_calls", "draws", "rpos", "rx_calls",
-             "fstart", "lastf", "clock"]
 
     def td_havoc(c, a, old, k):
         app = td_app(a)
@@ -865,6 +867,7 @@ def install_read(e):
             msg_dl = z3.If(text, log_append(log_append(dl0, G("on_data"), (as_str, SV("int", op_ret), True)), G("on_message"), (as_str,)),
                            log_append(log_append(dl0, G("on_data"), (B(pay), SV("int", op_ret), True)), G("on_message"), (B(pay),)))
         return z3.And(z3.BoolVal(res is True), kr0, APPINV(c, app), D_OK(c, old, app),
+                      z3.Implies(z(c.getf(app, "keep_running"), "bool"), z3.Not(zn(c.getf(app, "sock")))),
                       z3.Implies(isdata, dl1 == msg_dl),
                       z3.Implies(d.opcode == 9, dl1 == log_append(dl0, G("on_ping"), (B(d.payload),))),
                       z3.Implies(d.opcode == 10, z3.And(dl1 == log_append(dl0, G("on_pong"), (B(d.payload),)),
@@ -880,8 +883,14 @@ def install_read(e):
         app = app_of(a)
         for ws in cur_ws(c, app)[:1]:
             rdf.havoc(c, dict(self=ws, control_frame=True), old, 0 if k == 0 else 3)
-        td.havoc(c, dict(a, close_frame=None), old, 0)
+        for g in TD_GH:  # everything teardown may write (it ran only on the paths the post-condition says)
+            if g in c.ghost:
+                v = c.ghost[g]
+                c.ghost[g] = SV("log", smt.fresh(Log, g)) if g in ("dl", "raw") else c.havoc_like(v, g) if isinstance(v, SV) else c.fresh("int", g)
         havoc_sock(c, app, old)
+        # what teardown may have changed is unknown here (it ran only on the paths the post-condition says)
+        for f, sh in (("has_done_teardown", "bool"), ("keep_running", "bool"), ("last_ping_tm", "real")):
+            c.setf(app, f, c.fresh(sh, f))
         c.setf(app, "last_pong_tm", c.fresh("real", "last_pong_tm"))
         c.ghost["clock"] = c.fresh("real", "clock")
 
